@@ -94,3 +94,45 @@ def reported(o, path="main/a.lua"):
     if r is None:
         return None
     return {(d["r"][0], d["r"][1], d["code"]) for d in r}
+
+
+# ------------------------------------------------------------------------------------------------
+# LSP position helpers (independent of the code under test): lines end at \r\n, \n or \r; UTF-16 units
+# ------------------------------------------------------------------------------------------------
+def line_starts(text):
+    """byte offsets (utf-8) at which lines start, and the byte offset where each line's content ends."""
+    b = text.encode("utf-8")
+    starts, ends = [0], []
+    i = 0
+    while i < len(b):
+        c = b[i]
+        if c == 0x0D:
+            ends.append(i)
+            i += 2 if i + 1 < len(b) and b[i + 1] == 0x0A else 1
+            starts.append(i)
+        elif c == 0x0A:
+            ends.append(i)
+            i += 1
+            starts.append(i)
+        else:
+            i += 1
+    ends.append(len(b))
+    return b, starts, ends
+
+
+def u16len(bs):
+    return len(bs.decode("utf-8", errors="replace").encode("utf-16-le")) // 2
+
+
+def line_table(text):
+    b, starts, ends = line_starts(text)
+    return [u16len(b[s:e]) for s, e in zip(starts, ends)]
+
+
+def byte_to_pos(text, off):
+    """LSP (line, character) of a byte offset (clamped to the line content when inside a terminator)."""
+    b, starts, ends = line_starts(text)
+    import bisect
+    ln = bisect.bisect_right(starts, off) - 1
+    e = min(off, ends[ln])
+    return ln, u16len(b[starts[ln]:e])
